@@ -334,24 +334,22 @@ fn kd10_set_dictionary_protocol() {
 // KA2 — deflateEnd: whatever the stream's status, the state block obtained from zalloc goes back to zfree exactly
 // once, with the pointer zalloc returned and the same opaque handle, and the stream is left without a state (C18).
 // ---------------------------------------------------------------------------------------------------------------
-static mut END_ARENA: [u8; 192] = [0xEE; 192];
-static mut END_FREED: usize = 0;
-static mut END_FREE_CALLS: u32 = 0;
-static mut END_OPAQUE_OK: bool = true;
-const END_OPAQUE: usize = 0x7a7a;
-
+/// user allocator context, reached through `opaque` (no statics: a native replay runs several tests in one process)
+pub(crate) struct ArenaCtx {
+    pub arena: [u8; 192],
+    pub freed: usize,
+    pub free_calls: u32,
+    pub alloc_calls: u32,
+}
 unsafe extern "C" fn za_arena(o: *mut core::ffi::c_void, _items: u32, _size: u32) -> *mut core::ffi::c_void {
-    unsafe {
-        END_OPAQUE_OK &= o as usize == END_OPAQUE;
-        (core::ptr::addr_of_mut!(END_ARENA) as *mut u8).add(3) as *mut core::ffi::c_void // deliberately misaligned
-    }
+    let c = unsafe { &mut *(o as *mut ArenaCtx) };
+    c.alloc_calls += 1;
+    unsafe { c.arena.as_mut_ptr().add(3) as *mut core::ffi::c_void } // deliberately misaligned
 }
 unsafe extern "C" fn zf_arena(o: *mut core::ffi::c_void, p: *mut core::ffi::c_void) {
-    unsafe {
-        END_OPAQUE_OK &= o as usize == END_OPAQUE;
-        END_FREED = p as usize;
-        END_FREE_CALLS += 1;
-    }
+    let c = unsafe { &mut *(o as *mut ArenaCtx) };
+    c.freed = p as usize;
+    c.free_calls += 1;
 }
 
 #[kani::proof]
@@ -366,7 +364,9 @@ fn ka2_deflate_end_releases_once() {
     let mut pe = [MaybeUninit::new(0u8); 4 * LB];
     let mut sy = [0u8; 3 * LB];
     let mut state = typed_state(&mut w, &mut p, &mut h, &mut pe, &mut sy, WB, LB, 6, 1, Strategy::Default);
-    let alloc = Allocator { zalloc: za_arena, zfree: zf_arena, opaque: END_OPAQUE as *mut core::ffi::c_void, _marker: PhantomData };
+    let mut ctx = ArenaCtx { arena: [0xEE; 192], freed: 0, free_calls: 0, alloc_calls: 0 };
+    let ctxp = &mut ctx as *mut ArenaCtx;
+    let alloc = Allocator { zalloc: za_arena, zfree: zf_arena, opaque: ctxp as *mut core::ffi::c_void, _marker: PhantomData };
     // the block as init()/copy() obtain it
     let block = alloc.allocate_slice_raw::<u8>(64).unwrap();
     state.allocation_start = block;
@@ -392,9 +392,9 @@ fn ka2_deflate_end_releases_once() {
     };
     assert!(is_err == busy);
     assert!(z.state.is_null(), "no state left: a second End is refused instead of freeing twice");
-    assert!(unsafe { END_FREE_CALLS } == 1, "the state block is released exactly once, whatever the status");
-    assert!(unsafe { END_FREED } == unsafe { core::ptr::addr_of!(END_ARENA) as usize } + 3, "zfree receives the pointer zalloc returned");
-    assert!(unsafe { END_OPAQUE_OK }, "same opaque handle");
+    let c = unsafe { &*ctxp };
+    assert!(c.alloc_calls == 1 && c.free_calls == 1, "the state block is released exactly once, whatever the status");
+    assert!(c.freed == c.arena.as_ptr() as usize + 3, "zfree receives the pointer zalloc returned (and through the same opaque handle)");
     kani::cover!(busy);
     kani::cover!(!busy);
     core::mem::forget(state);
